@@ -49,10 +49,11 @@ RULE = ('graphs x seed sets x estimator exhaustive for digraphs n<=3 (loops n<=2
         'all n=4, random n=5); bipartite 0/1 and weighted biadjacency up to 3x2 (thorough 3x4) + random up to 6x7, one draw '
         'of (row/col/values/none seeds, forms, force_bipartite, init, n_iter) each; structured random graphs n<=12 '
         '(thorough: some n<=20); weights 1 / {1,2,3,5} / dyadic / uniform(0.01,10); dtypes bool, int8, uint8, int32, int64, '
-        'float32, float64 on adjacency and biadjacency; unsorted and duplicate-entry (non-canonical) CSR; containers; '
+        'float32, float64 on adjacency and biadjacency; unsorted and duplicate-entry (non-canonical) CSR, including bool / '
+        'weight-1 duplicates and int8 / uint8 duplicates whose sum approaches or leaves the dtype; containers; '
         'temperatures from {0,1,2,3,0.5,2.5,7,10,0.1} or uniform(0,10); values as ndarray (float64/float32/int32/bool), list, '
         'dict (python or numpy keys/values); init None / in / out of range, python int or numpy float; n_iter up to 30 '
-        '(quick: some 100; thorough: 100 and 300 on small graphs); damping in [0,1] and outside; refit of an already fitted '
+        '(quick: some 100; thorough: 100 and 300 on small graphs) and 64 / 65 / 100 / 300 on slow-mixing lazy chains; damping in [0,1] and outside; refit of an already fitted '
         'estimator object; degenerate stream (no seeds, empty dict, bad lengths, bad keys, n_iter<=0, empty matrix, all-zero '
         'dense matrix, sinks, explicit zeros, negative weights); normalize(matrix) itself on every distinct matrix and on '
         'signed matrices with explicit zeros; harmonic limit on undirected connected graphs (self-loops kept) and on '
@@ -69,6 +70,11 @@ ASSUMPTIONS = [
     'result of repeated indices in an assignment undefined)',
     'duplicate entries of a non-canonical CSR matrix are generated with the same sign only (with cancelling signed '
     'duplicates get_norms adds |stored entries|, not |entries|: outside the non-negative weights of C14)',
+    'duplicate entries are added as numbers by the float products of the adjacency path but IN THE DTYPE of the matrix by '
+    'coo / lil / dense containers and by sparse.bmat on the bipartite path (int8 100+100 -> -56, bool T+T -> T): the model '
+    'receives the dense denotation of the CSR matrix these scipy conversions produce (`effective`), scipy being the substrate',
+    'outputs containing +-inf (a weight below 6e-309 or a row sum above 1.8e308 leaves the float64 range) are answers '
+    '`err NonFinite`; such weights are not generated',
 ]
 
 PALETTE = [0, 1, 2, 3, 0.5, 2.5, 7, 10, 0.1]
@@ -136,10 +142,25 @@ def enc_form(form):
     return 'd:' + (','.join(items) if items else '-')
 
 
-def enc_sc_matrix(sc):
-    toks = [str(sc['shape'][0]), str(sc['shape'][1]), enc_list(sc['indptr']), enc_list(sc['indices']),
-            enc_ratlist(Fraction(float(x)) for x in sc['data'])]
-    return ' '.join(toks)
+def effective(sc):
+    """The CSR matrix the estimator works on: what `check_format` builds from the container (coo / lil / dense sum
+    duplicate entries *in the dtype of the matrix*: int8 wraps, bool saturates) and, on the bipartite routing, the B block
+    of `bipartite2undirected` (`sparse.bmat` sums duplicates in the dtype as well). Computed with scipy itself (substrate).
+    The model receives the dense denotation (exact sum of the stored entries) of *this* matrix."""
+    m = sparse.csr_matrix(container_of(sc_matrix(sc), sc.get('container', 'csr')))
+    if is_bipartite(sc) and m.nnz:
+        nr = m.shape[0]
+        m = sparse.csr_matrix(sparse.bmat([[None, m], [m.T, None]], format='csr')[:nr, nr:])
+    return m
+
+
+def enc_csr(m):
+    return ' '.join([str(m.shape[0]), str(m.shape[1]), enc_list(m.indptr), enc_list(m.indices),
+                     enc_ratlist(Fraction(float(x)) for x in m.data)])
+
+
+def enc_sc_matrix(sc, raw=False):
+    return enc_csr(sc_matrix(sc) if raw else effective(sc))
 
 
 def is_bipartite(sc):
@@ -195,7 +216,11 @@ def abstract_seeds(sc):
 
 
 def block_dense(sc):
-    a = sc_matrix(sc).astype(float).toarray()
+    e = effective(sc)
+    a = np.zeros(e.shape)
+    for i in range(e.shape[0]):
+        for p in range(e.indptr[i], e.indptr[i + 1]):
+            a[i, e.indices[p]] += float(e.data[p])
     if is_bipartite(sc):
         nr, nc = sc['shape']
         w = np.zeros((nr + nc, nr + nc))
@@ -266,8 +291,11 @@ def run_impl(sc, n_iter=None):
             v = _arr(est.values_)
             r = _arr(getattr(est, 'values_row_', None))
             c = _arr(getattr(est, 'values_col_', None))
-            if np.isnan(v).any() or (c is not None and np.isnan(c).any()):
+            allv = np.concatenate([v] + ([c] if c is not None else []))
+            if np.isnan(allv).any():
                 return ('err', 'NaN')
+            if not np.isfinite(allv).all():
+                return ('err', 'NonFinite')     # the model never answers this: a disagreement with a replay, not a crash
             return ('ok', v, r, c, (_arr(fp), _arr(est.predict()), _arr(est.predict(columns=True))))
     except Exception as e:      # noqa: an unexpected class is reported with the failing input, not as a tool failure
         return ('err', type(e).__name__)
@@ -364,12 +392,12 @@ def cases_of_scenario(sc, with_run=True):
             ctx_count('spec:boundary')
             out.append(Case(_key('boundary', sc), sig_of(sc, 'boundary'), None, impl,
                             'c14.spec_boundary %d %d %s %s %s' % (sc['shape'][0], sc['shape'][1], enc_bool(is_bipartite(sc)),
-                                                                  enc_seeds(seeds), impl[3:]), nontriv, desc))
+                                                                  enc_seeds(seeds), impl[3:]), False, desc))
     if res[0] == 'ok':
         ctx_count('spec:returned')
         fp, pr, prc = res[4]
         out.append(Case(_key('returned', sc), sig_of(sc, 'returned-values'), None, impl,
-                        'c14.spec_returned %s %s %s %s' % (impl[3:], _e(fp), _e(pr), _e(prc)), nontriv, desc))
+                        'c14.spec_returned %s %s %s %s' % (impl[3:], _e(fp), _e(pr), _e(prc)), False, desc))
     main = Case(_key('fit', sc), sig_of(sc, 'max-principle/boundary'), run_line(sc) if with_run else None, impl, spec,
                 nontriv, desc, tol=RUN_TOL * (1 + scale_of(sc)))
     return [main] + out
@@ -419,7 +447,7 @@ def normalize_case(a):
     from sknetwork.linalg.normalizer import normalize
     a = a if sparse.isspmatrix_csr(a) else sparse.csr_matrix(a)
     sc = scenario('dirichlet', a)
-    g = enc_sc_matrix(sc)
+    g = enc_sc_matrix(sc, raw=True)
     try:
         with warnings.catch_warnings():
             warnings.simplefilter('ignore')
@@ -442,14 +470,23 @@ def harmonic_cases(sc, rng, with_nonexp=True, k=None, only=None):
     out = []
     scale = scale_of(sc)
     g = '%s %s %s' % (enc_sc_matrix(sc), enc_bool(is_bipartite(sc)), enc_seeds(seeds))
+    def refused(res, k_):
+        # Dirichlet refuses a call the model accepts: a run line for that very call (-> disagreement with a replay)
+        ctx_count('harmonic:refused')
+        sck = dict(sc, n_iter=k_)
+        return [Case(_key('fit', sck), sig_of(sc, 'harmonic-limit'), run_line(sck), enc_out(res), None, True,
+                     {'kind': 'fit', 'scenario': sck}, tol=RUN_TOL * (1 + scale))]
+
     if only != 'nonexp':
         n_it = 400
         prev = run_impl(sc, n_it)
         if prev[0] != 'ok':
-            return out
+            return refused(prev, n_it)
         while n_it < 400000:
             n_it *= 4
             cur = run_impl(sc, n_it)
+            if cur[0] != 'ok':
+                return refused(cur, min(n_it, 1600))
             if np.max(np.abs(np.array(block_out(cur)) - np.array(block_out(prev)))) <= 1e-13:
                 prev = cur
                 break
@@ -464,7 +501,9 @@ def harmonic_cases(sc, rng, with_nonexp=True, k=None, only=None):
     if with_nonexp and only != 'harmonic':
         k = rng.choice([1, 2, 3, 5, 8, 13]) if k is None else k
         r1, r2 = run_impl(sc, k), run_impl(sc, k + 1)
-        if r1[0] == 'ok' and r2[0] == 'ok':
+        if r1[0] != 'ok' or r2[0] != 'ok':
+            out += refused(r1 if r1[0] != 'ok' else r2, k if r1[0] != 'ok' else k + 1)
+        else:
             spec = 'c14.spec_nonexp %s %s %s %s' % (g, enc_rat(NONEXP_TOL * (1 + scale)),
                                                     enc_ratlist(Fraction(float(x)) for x in block_out(r1)),
                                                     enc_ratlist(Fraction(float(x)) for x in block_out(r2)))
@@ -578,8 +617,10 @@ def cast_dtype(a, rng, wmode, ctx=None, p=0.35):
     """the same matrix stored with another dtype (values are exactly representable in it)"""
     if rng.random() >= p:
         return a
+    if wmode == 'uniform':
+        return a
     dt = {'ones': ['bool', 'int8', 'uint8', 'int32', 'int64', 'float32'], 'int': ['int64', 'int32', 'int8', 'uint8', 'float32'],
-          'dyadic': ['float32'], 'uniform': ['float64']}[wmode]
+          'dyadic': ['float32']}[wmode]
     d = rng.choice(dt)
     if ctx is not None:
         ctx.count('dtype:' + d)
@@ -588,7 +629,8 @@ def cast_dtype(a, rng, wmode, ctx=None, p=0.35):
 
 def noncanonical_copy(a, rng):
     """Same matrix, CSR storage with duplicate entries: some stored entries are split into two of the same sign
-    (x = x/2 + x/2 for floats, x = 1 + (x-1) for integers > 1), inserted at random positions of the row."""
+    (x = x/2 + x/2 for floats, x = 1 + (x-1) for integers > 1; a weight 1 and a bool True are stored twice, which makes the
+    weight 2 where duplicates are added as numbers and leaves True where they are added in the dtype)."""
     a = a.tocsr()
     rows = []
     integer = a.dtype.kind in 'iub'
@@ -596,8 +638,13 @@ def noncanonical_copy(a, rng):
         ent = []
         for p in range(a.indptr[i], a.indptr[i + 1]):
             j, x = int(a.indices[p]), a.data[p]
-            if rng.random() < 0.4 and not (integer and (a.dtype == bool or x <= 1)):
-                parts = [1, x - 1] if integer else [x / 2, x / 2]
+            if rng.random() < 0.4:
+                if a.dtype == bool:
+                    parts = [x, x]                    # True stored twice: summed to 2 by a float product, or-ed by bmat / coo
+                elif integer:
+                    parts = [1, x - 1] if x > 1 else [x, x]     # 1 stored twice is the weight 2
+                else:
+                    parts = [x / 2, x / 2]
                 if not integer and float(parts[0]) * 2 != float(x):
                     parts = [x]
                 ent += [(j, q) for q in parts]
@@ -665,9 +712,14 @@ def bip_scenarios(rng, b, count, ctx=None):
             if rng.random() < 0.3 and cs:
                 kw['values_col'] = make_form('dict', nc, cs, rng)     # `values` = row seeds, together with column seeds
         fb = (nr == nc and not any(k in kw for k in ('values_row', 'values_col'))) or rng.random() < 0.2
-        all_seeds = dict(rs)
-        all_seeds.update(cs)
-        sc = scenario(algo, b, init=pick_init(rng, all_seeds), force_bipartite=fb, n_iter=rng.choice([1, 2, 3, 4, 6]),
+        passed = {}
+        if 'values_row' in kw or 'values' in kw:
+            passed.update(rs)
+        if 'values_col' in kw:
+            passed.update({nr + j: t for j, t in cs.items()})
+        if not kw:
+            passed = {i: 1 for i in range(nr)}
+        sc = scenario(algo, b, init=pick_init(rng, passed), force_bipartite=fb, n_iter=rng.choice([1, 2, 3, 4, 6]),
                       alpha=rng.choice(ALPHAS) if algo == 'diffusion' else 0.5, **kw)
         out.append(sc)
         if ctx is not None:
@@ -734,6 +786,53 @@ def degenerate_scenarios(rng):
         out.append(scenario(algo, b, values_row=['dict', [[0, 1]]], values_col=['dict', [[1, 3]]], n_iter=2, prefit=prefit_desc(rng, True)))
         out.append(scenario(algo, b, n_iter=2, prefit=prefit_desc(rng, True)))
         out.append(scenario(algo, a, values=['list', [1, 2]], n_iter=2, prefit=prefit_desc(rng, False)))      # refused refit
+    return out
+
+
+def lazy_chain(rng, n=4):
+    """a path whose nodes mostly stay where they are (heavy self-loops): rounds 64, 100 and 300 differ by far more than
+    the tolerances while the exact arithmetic stays cheap"""
+    loop = rng.choice([20, 32, 50])
+    es, w = [], []
+    for i in range(n):
+        es.append((i, i))
+        w.append(loop)
+        if i + 1 < n:
+            es += [(i, i + 1), (i + 1, i)]
+            w += [1, 1]
+    return mk_matrix(n, n, es, w)
+
+
+def lazy_scenarios(rng, n_iters):
+    a = lazy_chain(rng)
+    n = a.shape[0]
+    out = []
+    for algo in ('diffusion', 'dirichlet'):
+        seeds = {0: rng.choice([1, 2, 8]), n - 1: 0} if rng.random() < 0.5 else {0: rng.choice([1, 2, 8])}
+        sc = scenario(algo, a, values=make_form(rng.choice(['arr', 'list', 'dict']), n, seeds), init=0 if len(seeds) == 1 else None,
+                      n_iter=rng.choice(n_iters), alpha=rng.choice([0.125, 0.5, 1]))
+        out.append(sc)
+    return out
+
+
+def narrow_duplicates(rng):
+    """int8 / uint8 / bool matrices (square and rectangular) with duplicate entries whose sum approaches or leaves the
+    dtype: added as numbers by the float products of the adjacency path, *in the dtype* by coo / lil / dense containers
+    and by `sparse.bmat` on the bipartite path (the model receives what those conversions produce, see `effective`)."""
+    out = []
+    for dt, pairs in (('int8', [(60, 60), (100, 27), (100, 100)]), ('uint8', [(200, 50), (128, 127), (200, 100)]),
+                      ('bool', [(1, 1)])):
+        x, y = rng.choice(pairs)
+        for shape in ((2, 2), (2, 3)):
+            data = np.array([x, y, 1, 1], dtype=np.dtype(dt))
+            m = sparse.csr_matrix((data, np.array([0, 0, 1, shape[1] - 1]), np.array([0, 3, 4])), shape=shape)
+            for algo in ('diffusion', 'dirichlet'):
+                if shape[0] == shape[1]:
+                    out.append(scenario(algo, m, values=['dict', [[0, 1], [1, 3]]], n_iter=3,
+                                        container=rng.choice(['csr', 'csr', 'coo', 'dense', 'lil', 'csc'])))
+                    out.append(scenario(algo, m, values_row=['dict', [[0, 1]]], values_col=['dict', [[1, 3]]], n_iter=3))
+                else:
+                    out.append(scenario(algo, m, values_col=['dict', [[1, 3], [0, 1]]], n_iter=2))
     return out
 
 
@@ -811,6 +910,12 @@ def build_cases(ctx):
         nodes = sorted(rng.sample(range(n), rng.randint(1, n)))
         scs += square_scenarios(rng, a, [nodes], n_iters=((100,) if quick else (100, 300)), ctx=ctx)
         ctx.count('long-run')
+    for _ in range(4 if quick else 30):
+        scs += lazy_scenarios(rng, (64, 65, 100) if quick else (64, 65, 100, 300))
+        ctx.count('long-run:lazy-chain')
+    nd = narrow_duplicates(rng)
+    scs += nd
+    ctx.count('narrow-dtype-duplicates', len(nd))
     if not quick:
         for _ in range(2000):
             es = graphs.random_edges(rng, 5, rng.choice([0.15, 0.3, 0.5]), directed=True, loops=True)
@@ -934,6 +1039,13 @@ def harmonic_suite(ctx, rng, quick, small_only=False):
                                                   'selfloops']):
             if es and is_connected_undirected(n, es):      # self-loops are kept: they must not spoil the limit
                 todo.append((n, es))
+    if not small_only:
+        for _ in range(2 if quick else 10):
+            a = lazy_chain(rng, rng.choice([3, 4]))
+            seeds = {0: rng.choice([1, 2, 8]), a.shape[0] - 1: 0}
+            sc = scenario('dirichlet', a, values=make_form('dict', a.shape[0], seeds))
+            cases += harmonic_cases(sc, rng)
+            ctx.count('harmonic:lazy-chain')
     for n, es in todo:
         a = mk_matrix(n, n, es, graphs.sym_weights(rng, es, [1, 1, 2, 3]))
         nodes = sorted(rng.sample(range(n), rng.randint(1, max(1, n - 1))))
@@ -1010,9 +1122,40 @@ def run(ctx):
 # ----------------------------------------------------------------------------------------------
 # failing-input search: the specification on the implementation over the exhaustive small space
 # ----------------------------------------------------------------------------------------------
+def variants_of(sc):
+    """delta-debugged variants of a disagreeing call: the call itself, the other estimator, fewer rounds, float64 copy,
+    csr container, no previous fit, no init"""
+    out = [sc]
+    out.append(dict(sc, algo='dirichlet' if sc['algo'] == 'diffusion' else 'diffusion'))
+    for k in sorted({1, 2, 3, min(5, max(1, sc['n_iter'])), max(1, sc['n_iter'] // 2)}):
+        if k != sc['n_iter']:
+            out.append(dict(sc, n_iter=k))
+    if sc.get('dtype', 'float64') != 'float64':
+        out.append(dict(sc, dtype='float64'))
+    if sc.get('container', 'csr') != 'csr':
+        out.append(dict(sc, container='csr'))
+    if sc.get('prefit') is not None:
+        out.append(dict(sc, prefit=None))
+    if sc.get('init') is not None:
+        out.append(dict(sc, init=None))
+    return out
+
+
 def search(ctx, pending):
     rng = ctx.rng
     scs = []
+    # (i) the disagreeing inputs themselves and their variants
+    seen = set()
+    for item in pending:
+        obj = item[2] if isinstance(item, (tuple, list)) and len(item) > 2 else item
+        desc = (obj or {}).get('case') if isinstance(obj, dict) else None
+        if isinstance(desc, dict) and 'scenario' in desc and desc.get('kind') in ('fit', 'harmonic', 'nonexp'):
+            for v in variants_of(_norm_sc(desc['scenario'])):
+                k = json.dumps(v, sort_keys=True, default=str)
+                if k not in seen and len(seen) < 400:
+                    seen.add(k)
+                    scs.append(v)
+    # (ii) the exhaustive small space
     fixed = [2, 0, 5, 1]
     for n in (2, 3):
         for es in graphs.all_digraphs(n, loops=True):
@@ -1040,7 +1183,12 @@ def search(ctx, pending):
 
 
 def replay(ctx, payload):
-    desc = payload.get('case') or {}
+    """Re-run the recorded call: a failing input (`case`) or the case of a broken tie (`what_no_longer_checks.case`),
+    with the recorded seed."""
+    import random
+    desc = payload.get('case') or (payload.get('what_no_longer_checks') or {}).get('case') or {}
+    if payload.get('seed') is not None:
+        ctx.rng = random.Random(int(payload['seed']) * 1000003 + 14)
     if 'scenario' in desc:
         evaluate(ctx, cases_of_desc(desc, ctx.rng))
     else:
